@@ -35,3 +35,5 @@ FUNCTIONS = FUNCTIONS + [q for q in [q for q in PARSE_SMALL if q.endswith("parse
 STRUCTURAL = (globals().get('STRUCTURAL') or []) + [dispatch_structural]
 TRUSTED = list(TRUSTED) + [A_TOK]
 ASSUMPTIONS = TRUSTED
+
+VALIDATION = (globals().get('VALIDATION') or []) + [validate_single]
